@@ -379,9 +379,9 @@ class UnitLib(Lib):
                         and kind is not None and s2 in kind:
                     return v.with_(unit=unit | {t1}, kind=kind | {t2},
                                    scale=None, cval=None)
-        if abs(sc) > 10 or abs(sc) < 0.1:
-            # an unrecognised large scale: give up rather than risk an alarm
-            return v.with_(unit=None, kind=None, scale=None, cval=None)
+        # an unrecognised scale stays pending: a later factor may complete a
+        # conversion (x * 60 * 60); a value that reaches a contract with a
+        # pending scale far from 1 is reported there
         return v.with_(scale=sc, cval=None)
 
     def additive(self, it, node, l: AV, r: AV, res: AV, op) -> AV:
@@ -1085,6 +1085,12 @@ def facet_mismatch(want: AV, got: AV, idx=True, other=True, axes=True):
             not (want.unit & got.unit) and "1" not in got.unit:
         out.append("unit %s where %s is required" %
                    (sorted(got.unit), sorted(want.unit)))
+    elif want.unit is not None and got.unit is not None and \
+            got.scale is not None and "1" not in got.unit and \
+            (abs(got.scale) >= 1.5 or abs(got.scale) <= 1 / 1.5):
+        out.append("a value in %s multiplied by %.6g (not a unit or width "
+                   "conversion) where %s is required" %
+                   (sorted(got.unit), got.scale, sorted(want.unit)))
     if other and want.kind is not None and got.kind is not None:
         for fam in (WIDTH_KINDS, POS_KINDS) + ((AXIS_KINDS,) if axes
                                                 else ()):
